@@ -86,7 +86,7 @@ def c03_jobs(tier):
                         continue
                     jobs.append(J("hsms", "ZZ_C03_structured", kind=kind, n=n, nlb=nlb, corr=corr))
     for kind in (3, 1):
-        for nlb, present in ((2, 0), (2, 256), (2, 257), (3, 0), (3, 256), (3, 300)) + (() if tier == "quick" else ((3, 65536), (2, 65535))):
+        for nlb, present in ((2, 0), (2, 256), (2, 257), (3, 0), (3, 256), (3, 300)) + (() if tier == "quick" else ((3, 1000), (2, 1000))):
             if tier == "quick" and kind == 1 and present not in (256,):
                 continue
             jobs.append(J("hsms", "ZZ_C03_lenbytes", kind=kind, nlb=nlb, present=present, fuel=2_000_000_000, timeout_s=(1500 if tier == "quick" else 7200)))
@@ -394,18 +394,19 @@ def c13_jobs(tier):
         sizes = [0, 1, 3, 255 // w, 255 // w + 1]
         if tier != "quick":
             sizes += [65535 // w, 65535 // w + 1]
-            if w >= 4 or t == 3:
-                sizes += [16777215 // w, 16777215 // w + 1]  # the real limit for 4- and 8-byte formats and ASCII
         for n in sizes:
-            jobs.append(J("ast", "ZZ_C13_factory", typ=t, n=n, heavy=(1 if n > 500000 else 0), **BIG))
+            jobs.append(J("ast", "ZZ_C13_factory", typ=t, n=n, **BIG))
     if tier != "quick":
-        # first size beyond the limit for the 1- and 2-byte formats (the at-limit side would need 16M-element items)
-        for t in (1, 2, 5, 6, 11, 12):
+        # the real limit: first size beyond it for all 14 formats (the factory refuses at its first statement),
+        # the largest constructible size for the 4- and 8-byte formats and ASCII (2M / 4M / 16M elements)
+        for t in range(14):
             jobs.append(J("ast", "ZZ_C13_factory", typ=t, n=16777215 // TYPE_W[t] + 1, heavy=1, **BIG))
+        for t in (4, 8, 10, 7, 9, 13, 3):
+            jobs.append(J("ast", "ZZ_C13_factory", typ=t, n=16777215 // TYPE_W[t], heavy=1, **BIG))
     # decoder read-back of length fields (harnesses shared with C03): all length bytes symbolic with
     # 256+ bytes present, and length fields of different widths in sequence
     for kind in (3, 1):
-        for nlb, present in ((1, 0), (1, 255), (2, 0), (2, 256), (3, 0), (3, 256)) + (() if tier == "quick" else ((2, 65535), (3, 65536))):
+        for nlb, present in ((1, 0), (1, 255), (2, 0), (2, 256), (3, 0), (3, 256)) + (() if tier == "quick" else ((2, 300), (3, 1000))):
             jobs.append(J("hsms", "ZZ_C03_lenbytes", kind=kind, nlb=nlb, present=present, fuel=2_000_000_000, timeout_s=(1500 if tier == "quick" else 7200)))
     for order in range(4):
         jobs.append(J("hsms", "ZZ_C03_mixed", order=order, fuel=400_000_000))
